@@ -118,6 +118,45 @@ Record oracle := {
   o_render : bool;        (* RenderPackageInstance: package validators + object validators *)
 }.
 
+Definition is_some {A} (x : option A) : bool := match x with Some _ => true | None => false end.
+
+(** ** The constraint list of the manifest
+
+    One entry of manifest.spec.constraints in the environment at hand (an entry of the generated
+    packages carries one kind of constraint). *)
+Inductive centry :=
+| CPlatform (met : bool)         (* platform: [OpenShift] needs OpenShift to be detected (platformConstraintMet) *)
+| CVersion (k : ckind) (parses applies met : bool)
+                                 (* platformVersion: the range and the platform's version parse; the constraint
+                                    names the platform the cluster is (Kubernetes always, OpenShift if detected);
+                                    the version is in the range *)
+| CUniqueInScope.
+
+(** The loop of checkConstraints over manifest.Spec.Constraints (deployer.go:360-399), statement by
+    statement: [None] = an error is returned, [Some msgs] = the messages collected. *)
+Fixpoint constraint_loop (cs : list centry) (msgs : list ckind) : option (list ckind) :=
+  match cs with
+  | [] => Some msgs
+  | CPlatform met :: r =>
+      (* :361-365 *)
+      constraint_loop r (if met then msgs else msgs ++ [KPlatform])
+  | CVersion k parses applies met :: r =>
+      if negb parses then None                                  (* :368-371, :383-385 return false, err *)
+      else if negb applies then constraint_loop r msgs          (* :386-388 continue *)
+      else constraint_loop r (if met then msgs else msgs ++ [k]) (* :389-393 *)
+  | CUniqueInScope :: r => constraint_loop r msgs               (* looked at by validateUnique, :401 *)
+  end.
+
+Definition is_unique_entry (c : centry) : bool := match c with CUniqueInScope => true | _ => false end.
+
+(** The oracle of a pass from the constraint list and the outcomes of the other stages. *)
+Definition mk_oracle (pull load : bool) (cs : list centry) (cfg : cfg_out) (images render : bool) : oracle :=
+  {| o_pull := pull; o_load := load;
+     o_range_ok := is_some (constraint_loop cs []);
+     o_unmet := match constraint_loop cs [] with Some m => m | None => [] end;
+     o_unique := if existsb is_unique_entry cs then Some 0 else None;
+     o_config := cfg; o_images := images; o_render := render |}.
+
 (** ** API requests and events *)
 
 Inductive rstat := SOk | SErr (* fails without effect *) | SLost (* takes effect, the caller sees an error *).
@@ -151,8 +190,6 @@ Definition logev (s : st) (e : ev) : st :=
   {| st_w := st_w s; st_f := st_f s; st_d := st_d s; st_dirty := st_dirty s; st_log := st_log s ++ [e] |}.
 
 Definition fail (s : st) : result := {| r_st := s; r_err := true; r_requeue := false |}.
-
-Definition is_some {A} (x : option A) : bool := match x with Some _ => true | None => false end.
 
 (** requests after which the controller holds the current ObjectDeployment (response of a Get,
     Create or Update) *)
